@@ -1283,6 +1283,61 @@ def _run(ctx):
         except ValueError:
             ctx.count("boundary:qnwgamma-tol=0:ValueError")
 
+    # ---- 4e. _make_multidim_func argument handling, observed with a recording stand-in for the 1-d routine:
+    # which path is taken, which (n_i, parameters_i) each dimension is called with, which error is raised
+    def md_stub_factory(log):
+        def stub(n_, *ps):
+            log.append((int(n_), tuple(Fraction(float(np.asarray(t_).reshape(-1)[0])) for t_ in ps)))
+            return np.arange(int(n_), dtype=float) + 10.0 * len(log), np.ones(int(n_))
+        return stub
+
+    for rep in range(ctx.n(40, 300)):
+        shape_kind = rep % 8
+        dlen = [1, 2, 3, 2, 3, 1, 0, 2][shape_kind]
+        nsv = [rng.randint(1, 4) for _ in range(dlen)]
+        argv = []
+        for j in range(2):
+            if shape_kind in (0, 1, 2):                       # well formed: size 1 or d
+                sz = rng.choice([1, dlen])
+            elif shape_kind in (3, 4):                        # all vectors of size d
+                sz = dlen
+            elif shape_kind == 5:                             # n of size 1, a vector argument
+                sz = rng.choice([1, 2, 3])
+            elif shape_kind == 6:                             # empty n
+                sz = rng.choice([0, 1, 2])
+            else:                                             # malformed: wrong length (shorter, longer or empty)
+                sz = rng.choice([0, 1, 2, 3, 4])
+            argv.append([Fraction(rng.randint(-9, 9)) for _ in range(sz)])
+        if all(len(v) == 0 for v in argv):
+            argv[0] = [Fraction(1)]
+        log = []
+        n_in = np.array(nsv, dtype=np.int64)
+        a_in = [np.array([float(t_) for t_ in v]) for v in argv]
+        # scalars instead of length-1 arrays now and then (same sizes for the routine)
+        a_pass = [(float(v[0]) if (len(v) == 1 and rng.random() < 0.5) else arr) for v, arr in zip(argv, a_in)]
+        n_pass = int(nsv[0]) if (dlen == 1 and rng.random() < 0.5) else n_in
+        try:
+            out = Q._make_multidim_func(md_stub_factory(log), n_pass, *a_pass)
+            if dlen == 1 and all(len(v) == 1 for v in argv):
+                got = "1d %d:%s" % (log[0][0], rats(log[0][1]))
+            else:
+                got = "multi " + ";".join("%d:%s" % (c[0], rats(c[1])) for c in log)
+                # the result is the tensor rule of the stand-in's outputs
+                if np.asarray(out[0]).shape != (int(np.prod(nsv)), dlen) or np.asarray(out[1]).shape != (int(np.prod(nsv)),):
+                    ctx.spec_fail("multidim-args", "_make_multidim_func output shape %s / %s for n=%s"
+                                  % (np.shape(out[0]), np.shape(out[1]), nsv), {"n": nsv, "args": [[float(t_) for t_ in v] for v in argv]})
+        except (IndexError, TypeError, ValueError) as e:
+            got = "ERR:" + type(e).__name__
+        ctx.count("mdplan:" + got.split(" ")[0].split(":")[0] + (":" + got.split(":")[1] if got.startswith("ERR") else ""))
+        # spec (model independent): on well-formed input every dimension is called once with its own parameters
+        wellformed = dlen >= 2 and all(len(v) in (1, dlen) for v in argv)
+        if wellformed:
+            want = [(nsv[i], tuple((v[0] if len(v) == 1 else v[i]) for v in argv)) for i in range(dlen)]
+            if log != want:
+                ctx.spec_fail("multidim-args", "_make_multidim_func called the 1-d routine with %s, expected %s" % (log, want),
+                              {"n": nsv, "args": [[float(t_) for t_ in v] for v in argv]})
+        cases.append(Case("C08 mdplan n=%s args=%s" % (ints(nsv), ratm(argv)), got, nontrivial=wellformed, tag="mdplan"))
+
     # ---- 5. qnwequi, quadrect ---------------------------------------------------------------------
     class Rs(np.random.RandomState):
         pass
